@@ -86,8 +86,8 @@ func (*Watermark).sendWatermarkLocked
   option channel_events
   requires wm.lastSentWatermark <= wm.currentWatermark
   modifies wm.lastSentWatermark, ghost(sends)
-  ensures [C02 C08 C10] recorded-only-when-delivered: wm.lastSentWatermark != old(wm.lastSentWatermark) ==> ghost(sends) == old(ghost(sends)) + 1
-  ensures [C02 C08 C10] nothing-pending-means-no-send: wm.currentWatermark <= old(wm.lastSentWatermark) ==> ghost(sends) == old(ghost(sends))
+  ensures [C02 C08 C10 C01] recorded-only-when-delivered: wm.lastSentWatermark != old(wm.lastSentWatermark) ==> ghost(sends) == old(ghost(sends)) + 1
+  ensures [C02 C08 C10 C01] nothing-pending-means-no-send: wm.currentWatermark <= old(wm.lastSentWatermark) ==> ghost(sends) == old(ghost(sends))
   ensures sent-is-current: wm.lastSentWatermark == old(wm.lastSentWatermark) || wm.lastSentWatermark == wm.currentWatermark
   ensures bounded: wm.lastSentWatermark <= wm.currentWatermark
   ensures monotone: wm.lastSentWatermark >= old(wm.lastSentWatermark)
